@@ -85,10 +85,11 @@ fn tracker_visit_macro<'a>(
         // side of assuming caller is there.
         state.assign("caller");
     }
-    m.args.iter().for_each(|arg| track_assign(arg, state));
+    // defaults are evaluated where the arguments are not visible yet
     m.defaults
         .iter()
         .for_each(|expr| tracker_visit_expr(expr, state));
+    m.args.iter().for_each(|arg| track_assign(arg, state));
     m.body.iter().for_each(|node| track_walk(node, state));
 }
 
@@ -244,15 +245,15 @@ fn track_walk<'a>(node: &ast::Stmt<'a>, state: &mut AssignmentTracker<'a>) {
         ast::Stmt::WithBlock(stmt) => {
             state.push();
             for (target, expr) in &stmt.assignments {
-                track_assign(target, state);
                 tracker_visit_expr(expr, state);
+                track_assign(target, state);
             }
             stmt.body.iter().for_each(|x| track_walk(x, state));
             state.pop();
         }
         ast::Stmt::Set(stmt) => {
-            track_assign(&stmt.target, state);
             tracker_visit_expr(&stmt.expr, state);
+            track_assign(&stmt.target, state);
         }
         ast::Stmt::AutoEscape(stmt) => {
             tracker_visit_expr(&stmt.enabled, state);
@@ -267,10 +268,11 @@ fn track_walk<'a>(node: &ast::Stmt<'a>, state: &mut AssignmentTracker<'a>) {
             state.pop();
         }
         ast::Stmt::SetBlock(stmt) => {
-            track_assign(&stmt.target, state);
             state.push();
             stmt.body.iter().for_each(|x| track_walk(x, state));
             state.pop();
+            tracker_visit_expr_opt(&stmt.filter, state);
+            track_assign(&stmt.target, state);
         }
         #[cfg(feature = "multi_template")]
         ast::Stmt::Block(stmt) => {
